@@ -27,7 +27,7 @@ EDITS = ['rename_geometry', 'add_node', 'add_geometry', 'effect_color', 'add_eff
 
 # ------------------------------------------------------------------ documents
 
-def make_xml(rng, ns, damage):
+def make_xml(rng, ns, damage, direct_texture=None, image_name=None):
     """a small document in namespace ns.  Ids come from a tiny alphabet shared by all documents
     (geom0, effect0, ...) while the data differ, so that anything keyed by id across documents shows."""
     nv = rng.randint(3, 6)
@@ -60,13 +60,18 @@ def make_xml(rng, ns, damage):
     url = '#nope' if damage == 'broken_ref' else '#' + gid
     target = '#nomat' if damage == 'bad_material_ref' else '#' + mid
     tx = rng.randint(-5, 5)
-    image = rng.random() < 0.4
+    if direct_texture is None:
+        direct_texture = rng.random() < 0.25
+    image = direct_texture or image_name is not None or rng.random() < 0.4
+    # an effect that names the image directly (no surface/sampler params): the library makes the
+    # surface and sampler up, ids included
+    diffuse = ('<texture texture="img0" texcoord="TEX0"/>' if direct_texture else '<color>%s</color>' % col)
     xml = '''<?xml version="1.0" encoding="utf-8"?>
 <COLLADA xmlns="%(ns)s" version="1.4.1">
  %(asset)s
  %(images)s
  <library_effects><effect id="%(eid)s"><profile_COMMON><technique sid="common"><phong>
-   <diffuse><color>%(col)s</color></diffuse><shininess><float>%(shin)d</float></shininess></phong></technique></profile_COMMON></effect></library_effects>
+   <diffuse>%(diffuse)s</diffuse><shininess><float>%(shin)d</float></shininess></phong></technique></profile_COMMON></effect></library_effects>
  <library_materials><material id="%(mid)s" name="m"><instance_effect url="#%(eid)s"/></material></library_materials>
  <library_geometries><geometry id="%(gid)s" name="g"><mesh>
    <source id="%(gid)s-pos"><float_array id="%(gid)s-pos-array" count="%(nf)d">%(verts)s</float_array>%(accessor)s</source>
@@ -83,8 +88,9 @@ def make_xml(rng, ns, damage):
        'node2': '<node id="node%d" name="second"><scale>1 %d 1</scale><instance_node url="#node%d"/></node>'
                 % (rng.randint(1, 2), rng.randint(1, 3), rng.choice([0, 0, 1, 2])) if rng.random() < 0.4 else '',
        'accessor': accessor, 'prim': prim, 'tx': tx, 'url': url, 'target': target,
-       'images': '<library_images><image id="img0" name="img0"><init_from>./t%d.png</init_from></image></library_images>'
-                 % rng.randint(0, 3) if image else ''}
+       'diffuse': diffuse,
+       'images': '<library_images><image id="img0" name="img0"><init_from>%s</init_from></image></library_images>'
+                 % (image_name or './t%d.png' % rng.randint(0, 3)) if image else ''}
     if damage == 'truncated':
         xml = xml[:len(xml) * 2 // 3]
     return xml
@@ -120,6 +126,50 @@ def make_minimal_xml(rng, ns):
        if rng.random() < 0.4 else '', '<library_cameras><camera id="cam0"><optics><technique_common><perspective><xfov>%d</xfov><znear>1</znear>'
              '<zfar>10</zfar></perspective></technique_common></optics></camera></library_cameras>' % rng.randint(30, 60) if cam else '',
        nodes)
+
+
+def make_deep_xml(rng, ns, depth):
+    """a chain of nested nodes `depth` levels deep (plus side branches) with erroneous instances at
+    the bottom and half way down, so that errors are handled deep inside the recursion"""
+    bad = rng.choice(['<instance_geometry url="#nope"/>', '<instance_camera url="#nocam"/>', '<instance_light url="#nolight"/>'])
+    mid = depth // 2
+    head, tail = [], []
+    for d in range(depth):
+        extra = ''
+        if d == mid:
+            extra = bad
+        if d % 50 == 7:
+            extra += '<node id="side%d"><translate>%d 0 0</translate></node>' % (d, rng.randint(0, 5))
+        head.append('<node id="deep%d" name="d%d"><translate>%d 0 1</translate>%s' % (d % 3, d, rng.randint(0, 3), extra))
+        tail.append('</node>')
+    return '''<?xml version="1.0" encoding="utf-8"?>
+<COLLADA xmlns="%s" version="1.4.1">
+ <asset><created>2020-01-02T03:04:05</created><modified>2020-01-02T03:04:05</modified><up_axis>Y_UP</up_axis></asset>
+ <library_visual_scenes><visual_scene id="scene0">%s%s%s</visual_scene></library_visual_scenes>
+ <scene><instance_visual_scene url="#scene0"/></scene>
+</COLLADA>
+''' % (ns, ''.join(head), bad, ''.join(tail))
+
+
+def gen_deep_prog(rng, idx):
+    ns = rng.choice([NS141, NS141, NS150])
+    depth = rng.randint(250, 390)
+    src = {'kind': 'xml', 'xml': make_deep_xml(rng, ns, depth), 'ns': ns, 'damage': 'deep-%d' % depth, 'deep': depth}
+    return {'name': 'p%d' % idx, 'source': src, 'ignore': [rng.choice(['GatedDaeError', 'GatedDaeError', 'GatedDaeBrokenRefError'])],
+            'steps': [['load'], ['snap']] + ([['save']] if rng.random() < 0.4 else [])}
+
+
+def gen_archive_prog(rng, idx):
+    """a zip archive or a directory with the document and its texture: the member/file names are
+    the same in every archive and directory, the texture bytes are not"""
+    ns = rng.choice([NS141, NS141, NS141, NS150])
+    xml = make_xml(rng, ns, 'none', direct_texture=rng.random() < 0.5, image_name=rng.choice(['tex.png', 'tex.png', './textures/a.png']))
+    name = 'tex.png' if 'tex.png' in xml else 'textures/a.png'
+    src = {'kind': rng.choice(['zip', 'zip', 'dir']), 'member': 'doc.dae', 'xml': xml, 'ns': ns, 'damage': 'none',
+           'aux': {name: 'texture-bytes-%d-%d' % (idx, rng.randint(0, 10 ** 6))}}
+    steps = [['load']] + [rng.choice([['edit', 'query', 0], ['edit', 'query', 0], ['save'], ['snap'], ['edit', 'effect_color', 1]])
+                          for _ in range(rng.randint(1, 3))] + [['edit', 'query', 0]]
+    return {'name': 'p%d' % idx, 'source': src, 'ignore': rng.choice(MASKS), 'steps': steps}
 
 
 def gen_steps(rng, n):
@@ -199,11 +249,18 @@ def gen_schedule(rng, progs):
 
 # ------------------------------------------------------------------ running
 
+TIMES = []
+
+
 def run_mode(payload, timeout=300):
+    import time
+    t = time.time()
     try:
         return core.run_impl('c20', payload, timeout=timeout)
     except Exception as e:  # noqa  (crash, hang, memory)
         return {'crashed': str(e)[-400:]}
+    finally:
+        TIMES.append((round(time.time() - t, 1), payload['mode'], len(payload.get('progs', [])), payload.get('rounds')))
 
 
 def run_many(payloads, timeout=300):
@@ -233,8 +290,8 @@ def c_case(ndocs, sched_obs, solo, gl, nshared):
 def short_prog(p):
     q = dict(p)
     s = dict(p['source'])
-    if s['kind'] == 'xml':
-        s = {'kind': 'xml', 'ns': s.get('ns'), 'damage': s.get('damage'), 'xml_len': len(s['xml'])}
+    if s['kind'] in ('xml', 'zip', 'dir'):
+        s = {'kind': s['kind'], 'ns': s.get('ns'), 'damage': s.get('damage'), 'xml_len': len(s['xml']), 'aux': s.get('aux')}
     elif s['kind'] == 'ctor':
         s = {'kind': 'ctor'}
     q['source'] = s
@@ -329,6 +386,12 @@ def run(ctx):
         j = rng.randrange(len(progs))
         progs.append(dict(progs[j], name='p%d' % len(progs), ignore=rng.choice([progs[j]['ignore'], rng.choice(MASKS)]),
                           steps=gen_steps(rng, rng.randint(2, 6))))
+    for _ in range(nprog // 6):
+        progs.append(gen_archive_prog(rng, len(progs)))
+    deep = []
+    for _ in range(8 if quick else 24):
+        deep.append(len(progs))
+        progs.append(gen_deep_prog(rng, len(progs)))
     shapes = [[['load'], ['save'], ['edit', 'query', 0], ['save']],
               [['load'], ['edit', 'add_node', 1], ['save'], ['edit', 'add_geometry', 2], ['edit', 'scale_vertices', 1], ['save']],
               [['load'], ['edit', 'ignore', 1], ['edit', 'query', 0], ['edit', 'add_effect', 3], ['save']]]
@@ -341,6 +404,7 @@ def run(ctx):
             grp.append(len(progs))
             progs.append(q)
         groups.append(grp)
+    groups.append(deep[:8])
     nprog = len(progs)
     ctx.log('solo runs: %d document programs, one fresh process each' % nprog)
     solo = run_many([{'mode': 'solo', 'prog': p} for p in progs])
@@ -368,7 +432,8 @@ def run(ctx):
             pick = list(groups[(t // 2) % len(groups)])
         else:
             pick = [rng.choice(usable) for _ in range(8)]
-        payloads.append(({'mode': 'threads', 'progs': [progs[i] for i in pick], 'rounds': rounds}, pick))
+        slow = sum(1 for i in pick if progs[i]['source'].get('deep'))
+        payloads.append(({'mode': 'threads', 'progs': [progs[i] for i in pick], 'rounds': 2 if slow >= 4 else rounds}, pick))
     ngated = 120 if quick else 1500
     io_steps = lambda p: [k for k, st in enumerate(p['steps']) if st[0] in ('load', 'save') or st[:2] == ['edit', 'query']]
     writers = [i for i in usable if any(o['obs'][0] == 'bytes' for o in solo[i]['steps'])]
@@ -382,6 +447,14 @@ def run(ctx):
         k = rng.choice(saves) if saves and rng.random() < 0.6 else rng.choice(ks)
         pick = [a] + rest
         payloads.append(({'mode': 'gated', 'progs': [progs[i] for i in pick], 'gate_step': k}, pick))
+    ndeep = 16 if quick else 120
+    for n in range(ndeep):
+        a = rng.choice(deep)
+        rest = [rng.choice(deep) for _ in range(rng.choice([1, 2]))]
+        if a in usable and all(r in usable for r in rest):
+            pick = [a] + rest
+            payloads.append(({'mode': 'gated', 'progs': [progs[i] for i in pick], 'gate_step': 0,
+                              'gate_where': 'ignore.isinstance'}, pick))
     ctx.log('running %d sequential schedules, %d threaded runs (8 threads, %d rounds each) and %d gated overlaps'
             % (nsched, nthread, rounds, ngated))
     results = run_many([p for p, _ in payloads], timeout=600)
@@ -444,7 +517,7 @@ def run(ctx):
     for p, s in zip(progs, solo):
         src = p['source']
         dist['by_source'][src['kind']] = dist['by_source'].get(src['kind'], 0) + 1
-        if src['kind'] == 'xml':
+        if src['kind'] in ('xml', 'zip', 'dir'):
             nsk = {NS141: '1.4.1', NS150: '1.5'}.get(src['ns'], 'other-uri')
             dist['by_namespace'][nsk] = dist['by_namespace'].get(nsk, 0) + 1
             dist['by_damage'][src['damage']] = dist['by_damage'].get(src['damage'], 0) + 1
@@ -457,6 +530,7 @@ def run(ctx):
             if st[0] == 'save':
                 dist['saves'] += 1
                 dist['saves_raised'] += o['obs'][0] == 'raised'
+    ctx.log('slowest workers: %s' % sorted(TIMES, reverse=True)[:6])
     ctx.log('evaluating the projection comparison inside Coq (%d cases)' % len(terms))
     bad, errors = core.coq_eval_cases(ctx, HEADER, CASE_TYPE, terms, 'C20.mismatches', chunk=60)
     mismatches = [{'case_index': i, 'input': case_inputs[i][0], 'footprint_measured': case_inputs[i][1],
